@@ -506,7 +506,7 @@ def classify(case, obs, k, verdict):
     cis = case_items(case, obs)
     ci = cis[k]
     sig = SIGS.get(verdict, 'C10/' + verdict)
-    if ci[0] != 'D':
+    if ci[0] != 'D' or verdict not in ('early', 'overslept', 'late-added'):
         return sig
     it = obs['items'][k]
     rds = [Fraction(lk[0]) for lk in it['looks'] if lk[4] == 'time']
@@ -531,10 +531,10 @@ def classify(case, obs, k, verdict):
         elif Fraction(cj[2]) > 0:
             due += seconds(cj)
             due0 += seconds(cj)
-    if any(c[0] == 'T' for c in cis[:k]) and fits(origin0 + due0 + seconds(ci)):
-        return 'C10/time-at-does-not-restart'
     if fits(origin + due + seconds(ci, flip=True)):
         return 'C10/raw-time-not-milliseconds' if ci[1] else 'C10/logical-time-taken-as-milliseconds'
+    if any(c[0] == 'T' for c in cis[:k]) and fits(origin0 + due0 + seconds(ci)):
+        return 'C10/time-at-does-not-restart'
     return sig
 
 
@@ -594,7 +594,14 @@ def check_cases(ctx, cases, tag):
                 ctx.counterexample(sig, 'wait #%d (%s) of %s: %s; deadline %s, readings taken %s, ended at %s after %d wait() calls'
                                    % (k + 1, cis[k], describe(case), v, dl, rds[:6], it['t_exit'], it['waits']), replay)
         if len(verdicts) != len(obs['items']):
-            ctx.counterexample('C10/time-at-wrong-moment', 'the specification stops judging %s after item %d' % (describe(case), len(verdicts)), replay)
+            k = max(0, len(verdicts) - 1)
+            it = obs['items'][k]
+            n_rd = len([lk for lk in it['looks'] if lk[4] == 'time'])
+            if cis[k][0] == 'T' and n_rd == 0:
+                ctx.counterexample('C10/time-at-does-not-restart', 'time-of-day wait #%d of %s ended without restarting the time line (no clock reading taken, _start_time %s, _cue_time %s)'
+                                   % (k + 1, describe(case), it['regs'][1], it['regs'][0]), replay)
+            else:
+                ctx.counterexample('C10/time-at-wrong-moment', 'wait #%d of %s: %d clock readings where one restart is expected' % (k + 1, describe(case), n_rd), replay)
         if case.get('policy') == 'script-first' and not case.get('schedule'):
             for k, b in enumerate(ticks):
                 if b != 'T':
